@@ -12,6 +12,12 @@
 \*   class_tparam C T   the header of class C declares its type parameter T (all four languages)
 \*   str s              every string literal of the program appears (as often as in the program)
 \*   balanced           brackets, braces and parentheses are balanced outside literals
+\*   call_targs f       as many calls of f with explicit type arguments f<..>(..) as the program has calls of f that carry type arguments
+\*                      not flagged inferable (Kotlin, Scala; Java and Groovy never print them - not judged)
+\* "at least" facts (the text may contain more, e.g. the 0 of an empty array, the brackets of generic types):
+\*   lit v              every numeric literal of the program appears (v = its absolute value as written)
+\*   op o               every binary operator of the program appears
+\*   param x            every parameter (of functions and lambdas) appears under its name
 EXTENDS Naturals, Sequences, FiniteSets
 Count(S) == Cardinality(S)
 Ev(P) == P.ev
@@ -33,6 +39,8 @@ Expresses(lang, kind) ==
     [] kind = "var_untyped_top" -> lang = "groovy"
     \* Groovy prints a local function as a closure: "def f = { .. }" when it declares no (or a void) return type, "Closure<T> f = { .. }" otherwise
     [] kind \in {"closure_untyped", "closure_typed"} -> lang = "groovy"
+    [] kind = "call_targs" -> lang \in {"kotlin", "scala"}
+    [] kind \in {"lit", "op", "param"} -> TRUE
     [] OTHER -> FALSE
 
 Expected(P, kind, name) ==
@@ -48,7 +56,14 @@ Expected(P, kind, name) ==
     [] kind = "new_inferred" -> Count(Idx(P, LAMBDA e : e.ev = "New" /\ e.t.n = name /\ e.t.a # <<>> /\ e.infer))
     [] kind = "str" -> Count(Idx(P, LAMBDA e : e.ev = "Const" /\ e.lit = "string" /\ e.text = name))
     [] kind = "balanced" -> 1
+    [] kind = "call_targs" -> Count(Idx(P, LAMBDA e : e.ev = "Call" /\ e.name = name /\ e.targs # <<>> /\ ~e.infer))
+    [] kind = "lit" -> Count(Idx(P, LAMBDA e : e.ev = "Const" /\ e.lit \in {"int", "real"} /\ e.abs = name))
+    [] kind = "op" -> Count(Idx(P, LAMBDA e : e.ev = "BinOp" /\ e.op = name))
+    [] kind = "param" -> Count(Idx(P, LAMBDA e : e.ev = "ParamDecl" /\ e.name = name))
     [] OTHER -> 0
+\* how the measured count is compared with the expected one
+AtLeast(kind) == kind \in {"lit", "op", "param"}
+Differs(kind, exp, got) == IF AtLeast(kind) THEN got < exp ELSE got # exp
 \* the probes of a program: <<kind, name>> for every name the program declares / uses in that role
 Probes(P) ==
        {<<"class", P.ev[j].name>> : j \in Idx(P, LAMBDA e : e.ev = "Enter" /\ e.kind = "Class")}
@@ -62,6 +77,10 @@ Probes(P) ==
   \cup {<<"new_inferred", P.ev[j].t.n>> : j \in Idx(P, LAMBDA e : e.ev = "New" /\ e.t.a # <<>>)}
   \cup {<<"str", P.ev[j].text>> : j \in Idx(P, LAMBDA e : e.ev = "Const" /\ e.lit = "string")}
   \cup {<<"balanced", "">>}
+  \cup {<<"call_targs", P.ev[j].name>> : j \in Idx(P, LAMBDA e : e.ev = "Call" /\ e.targs # <<>>)}
+  \cup {<<"lit", P.ev[j].abs>> : j \in Idx(P, LAMBDA e : e.ev = "Const" /\ e.lit \in {"int", "real"})}
+  \cup {<<"op", P.ev[j].op>> : j \in Idx(P, LAMBDA e : e.ev = "BinOp")}
+  \cup {<<"param", P.ev[j].name>> : j \in Idx(P, LAMBDA e : e.ev = "ParamDecl")}
 \* ---- type-parameter declarations (probes with two names: owner, parameter) -----------------------------------------------------
 ExpressesT(lang, kind) == IF kind = "fun_tparam" THEN lang \in {"kotlin", "scala"} ELSE kind = "class_tparam"
 OwnerKind(kind) == IF kind = "fun_tparam" THEN "Fun" ELSE "Class"
